@@ -78,11 +78,73 @@ def formfeed_at_line_start(replay):
 
 
 def global_after_import_path_name(replay):
-    """F15: the reported name occurs in the module path of an import statement of the program"""
+    """F15: the reported name occurs in an import statement of the program"""
     sig = replay.get('signature', '')
-    m = re.search(r"name '(\w+)' is used prior", sig)
+    m = re.search(r"name '(\w+)' is (used prior|assigned to before)", sig)
     if not m:
         return False
     nm = m.group(1)
     text = _text(replay)
-    return bool(re.search(r'(?m)^\s*(from\s+[.\w]*\b%s\b[.\w]*\s+import|import\s+[^\n]*\b\w+\.%s\b|import\s+[^\n]*\b%s\.\w)' % (nm, nm, nm), text))
+    for stmt in re.split(r'[\n;]', text):
+        st = stmt.strip()
+        if (st.startswith('import ') or st.startswith('from ')) and re.search(r'\b%s\b' % re.escape(nm), st):
+            return True
+    return False
+
+
+def v36_await_identifier(replay):
+    """F17: grammar 3.6 and the program uses await/async outside an async function (identifiers for CPython 3.6)"""
+    return replay.get('version') == '3.6' and bool(re.search(r'\b(await|async)\b', _text(replay)))
+
+
+def global_after_non_use_occurrence(replay):
+    """F15: in the scope of the `global` statement that names the reported name, no variable occurrence (ast.Name) of that
+    name precedes the statement - the only earlier occurrences are import statements, parameters of nested functions,
+    attribute names or occurrences in other scopes - while the name does occur textually before it"""
+    import ast, warnings
+    sig = replay.get('signature', '')
+    m = re.search(r"name '(\w+)' is (used prior|assigned to before)", sig)
+    if not m:
+        return False
+    nm = m.group(1)
+    text = _text(replay)
+    try:
+        with warnings.catch_warnings():
+            warnings.simplefilter('ignore')
+            tree = ast.parse(text)
+    except Exception:
+        return False
+    SCOPES = (ast.FunctionDef, ast.AsyncFunctionDef, ast.ClassDef, ast.Lambda)
+
+    def scope_nodes(scope):
+        out = []
+
+        def rec(n):
+            for c in ast.iter_child_nodes(n):
+                if isinstance(c, SCOPES):
+                    # decorators, defaults, annotations and bases are evaluated in the enclosing scope
+                    for part in list(getattr(c, 'decorator_list', [])) + list(getattr(c, 'bases', [])) + \
+                            list(getattr(getattr(c, 'args', None), 'defaults', []) or []) + \
+                            [d for d in (getattr(getattr(c, 'args', None), 'kw_defaults', []) or []) if d is not None]:
+                        out.append(part)
+                        rec(part)
+                    continue
+                out.append(c)
+                rec(c)
+        rec(scope)
+        return out
+    scopes = [tree] + [n for n in ast.walk(tree) if isinstance(n, SCOPES)]
+    for sc in scopes:
+        nodes = scope_nodes(sc)
+        gls = [n for n in nodes if isinstance(n, ast.Global) and nm in n.names]
+        if not gls:
+            continue
+        g0 = min(gls, key=lambda n: (n.lineno, n.col_offset))
+        pos = (g0.lineno, g0.col_offset)
+        if any(isinstance(n, ast.Name) and n.id == nm and (n.lineno, n.col_offset) < pos for n in nodes):
+            continue
+        g1 = max(gls, key=lambda n: (n.lineno, n.col_offset))      # the order check may be reported at any of them
+        before = '\n'.join(text.split('\n')[:g1.lineno - 1] + [text.split('\n')[g1.lineno - 1][:g1.col_offset]])
+        if re.search(r'\b%s\b' % re.escape(nm), before):
+            return True
+    return False
